@@ -520,7 +520,8 @@ Section Model.
     | OSort => a1 <- arr_sort a ;; Ok (h, with_arr v a1, mkOut RVoid [] [] None)
     | OSortFore => a1 <- arr_sort_fore a ;; Ok (h, with_arr v a1, mkOut RVoid [] [] None)
     | OSortBack => a1 <- arr_sort_back a ;; Ok (h, with_arr v a1, mkOut RVoid [] [] None)
-    | OPushSort key =>
+    | OPushSort key0 =>
+        let key := fit (a_siz a) key0 in
         r <- vec_setm h v (wadd (a_num a) 1) ;;
         let '(h1, v1, rc, ev) := r in
         if rc =? 0 then
@@ -529,7 +530,7 @@ Section Model.
           a3 <- put a2 off key ;;
           Ok (h1, with_arr v1 a3, mkOut (vec_ptr_ret a3 (Some off) (a_num a3)) [] ev None)
         else Ok (h1, v1, mkOut (RPtr None None) [] ev None)
-    | OSearch key => f <- arr_search a key ;; Ok (h, v, mkOut (RFound f) [] [] None)
+    | OSearch key => f <- arr_search a (fit (a_siz a) key) ;; Ok (h, v, mkOut (RFound f) [] [] None)
     | OInsert idx x =>
         r <- vec_setm h v (wadd (a_num a) 1) ;;
         let '(h1, v1, rc, ev) := r in
@@ -658,14 +659,15 @@ Section Model.
     | OSort => a1 <- arr_sort a ;; Ok (h, bwith b a1, mkOut RVoid [] [] None)
     | OSortFore => a1 <- arr_sort_fore a ;; Ok (h, bwith b a1, mkOut RVoid [] [] None)
     | OSortBack => a1 <- arr_sort_back a ;; Ok (h, bwith b a1, mkOut RVoid [] [] None)
-    | OPushSort key =>
+    | OPushSort key0 =>
+        let key := fit (a_siz a) key0 in
         if a_num a <? a_mem a then
           r2 <- arr_push_sort a key ;;
           let (a2, off) := r2 in
           a3 <- put a2 off key ;;
           Ok (h, bwith b a3, mkOut (vec_ptr_ret a3 (Some off) (a_num a3)) [] [] None)
         else Ok (h, b, mkOut (RPtr None None) [] [] None)
-    | OSearch key => f <- arr_search a key ;; Ok (h, b, mkOut (RFound f) [] [] None)
+    | OSearch key => f <- arr_search a (fit (a_siz a) key) ;; Ok (h, b, mkOut (RFound f) [] [] None)
     | OInsert idx x =>
         if a_num a <? a_mem a then
           r2 <- arr_insert a idx ;;
